@@ -163,8 +163,24 @@ fn directed_shapes(which: usize, m: usize) -> Vec<Shape> {
     (0..m).map(|i| base[i % base.len()]).collect()
 }
 
+/// the directed sweep (cases 8 … 8 + SWEEP - 1): node 0 keeps `cap - n2 + d - 2` items, node 1 is emptied, nodes 2 and 3 are
+/// untouched, nodes 4 and 5 get one update each — the merged node `rest(0) + node 2` is just above one node for some `d`,
+/// so that the worker needs a SECOND merge inside the unchanged range its right neighbour granted (the geometry of the
+/// seeded change `C01-branch-stage-stale-range-high`)
+const SWEEP: usize = 16;
+fn sweep_sizes(cap: usize, half: usize) -> Vec<usize> {
+    vec![cap - 5, half + 5, half + 20, half + 10, half + 10, half + 10]
+}
+fn sweep_shapes() -> Vec<Shape> {
+    use Shape::*;
+    vec![DeleteTail, DeleteAll, Untouched, Untouched, Update, Update]
+}
+
 /// which indices of a node of `n` items are deleted / how many keys are inserted / which one is updated
-fn shape_plan(r: &mut Rng, shape: Shape, n: usize, underfull_below: usize) -> (Vec<usize>, usize, Option<usize>) {
+fn shape_plan(r: &mut Rng, shape: Shape, n: usize, underfull_below: usize, keep: Option<usize>) -> (Vec<usize>, usize, Option<usize>) {
+    if let (Shape::DeleteTail, Some(keep)) = (shape, keep) {
+        return ((keep.clamp(1, n - 1)..n).collect(), 0, None);
+    }
     match shape {
         Shape::Untouched => (vec![], 0, None),
         Shape::Update => (vec![], 0, Some(r.below(n))),
@@ -225,12 +241,14 @@ struct BScenario {
 
 fn gen_branch(r: &mut Rng, next_id: &mut usize, pn: &mut u32, out: &mut Sink, directed: Option<usize>) -> Option<BScenario> {
     let p = r.bytes32();
-    let plen = *r.pick(&[8usize, 16, 16, 20, 24]);
-    // bytes per item: 6 + (32 - plen) roughly
-    let per_item = 6 + (32 - plen);
-    let cap = (bu::BRANCH_NODE_BODY_SIZE - 40) / per_item;
-    let half = bu::BRANCH_MERGE_THRESHOLD / per_item;
-    let m = r.range(3, 10);
+    let sweep = directed.filter(|d| *d >= 8).map(|d| d - 8);
+    let plen = if sweep.is_some() { 16 } else { *r.pick(&[8usize, 16, 16, 20, 24]) };
+    // bytes per item, measured on a probe node of 64 items
+    let probe: Vec<(Key, u32)> = (0..64).map(|i| (branch_key(&p, plen, 1, i * 4), 1)).collect();
+    let probe_body = catch_unwind(AssertUnwindSafe(|| bu::make_node(&probe, 64, prefix_len(&probe[0].0, &probe[63].0), 1).view().body_size)).ok()?;
+    let cap = (bu::BRANCH_NODE_BODY_SIZE - 48) * 64 / probe_body;
+    let half = bu::BRANCH_MERGE_THRESHOLD * 64 / probe_body + 2;
+    let m = if sweep.is_some() { 6 } else { r.range(3, 10) };
     let mut level = Vec::new();
     let mut sizes = Vec::new();
     for j in 0..m {
@@ -239,7 +257,7 @@ fn gen_branch(r: &mut Rng, next_id: &mut usize, pn: &mut u32, out: &mut Sink, di
             1 => r.range(cap - 12, cap),
             _ => r.range(half + 2, cap),
         };
-        let n = n.min(450);
+        let n = if sweep.is_some() { sweep_sizes(cap, half)[j] } else { n.min(450) };
         sizes.push(n);
         let keys: Vec<Key> = (0..n).map(|i| branch_key(&p, plen, j, i * 4)).collect();
         let pl = if n <= 1 { separator_len(&keys[0]) } else { prefix_len(&keys[0], &keys[n - 1]) };
@@ -273,14 +291,16 @@ fn gen_branch(r: &mut Rng, next_id: &mut usize, pn: &mut u32, out: &mut Sink, di
         );
         level.push(BNode { id, handle: h, view });
     }
-    let shapes: Vec<Shape> = match directed {
-        Some(w) => directed_shapes(w, m),
-        None => (0..m).map(|_| pick_shape(r)).collect(),
+    let shapes: Vec<Shape> = match (directed, sweep) {
+        (_, Some(_)) => sweep_shapes(),
+        (Some(w), _) => directed_shapes(w, m),
+        _ => (0..m).map(|_| pick_shape(r)).collect(),
     };
+    let keep = sweep.map(|d| (cap + d).saturating_sub(sizes[2] + 3));
     let mut changes: Vec<(Key, Option<u32>)> = Vec::new();
     for (j, nd) in level.iter().enumerate() {
         let n = nd.view.items.len();
-        let (dels, ins, upd) = shape_plan(r, shapes[j], n, half.saturating_sub(2));
+        let (dels, ins, upd) = shape_plan(r, shapes[j], n, half.saturating_sub(2), keep);
         let mut here: BTreeMap<Key, Option<u32>> = BTreeMap::new();
         for i in dels {
             here.insert(nd.view.items[i].0, None);
@@ -521,8 +541,9 @@ struct LScenario {
 fn gen_leaf(r: &mut Rng, next_id: &mut usize, pn: &mut u32, out: &mut Sink, directed: Option<usize>) -> LScenario {
     let mut p = r.bytes32();
     p[0] = 0x40 | (p[0] & 0x3f);
-    let m = r.range(3, 10);
-    let vsize = *r.pick(&[20usize, 40, 60, 100]);
+    let sweep = directed.filter(|d| *d >= 8).map(|d| d - 8);
+    let m = if sweep.is_some() { 6 } else { r.range(3, 12) };
+    let vsize = if sweep.is_some() { 20 } else { *r.pick(&[20usize, 40, 60, 100]) };
     let per = 34 + vsize;
     let cap = lu::LEAF_NODE_BODY_SIZE / per;
     let half = lu::LEAF_MERGE_THRESHOLD / per + 1;
@@ -534,6 +555,7 @@ fn gen_leaf(r: &mut Rng, next_id: &mut usize, pn: &mut u32, out: &mut Sink, dire
             1 => r.range(cap.saturating_sub(3).max(half + 1), cap),
             _ => r.range(half + 1, cap),
         };
+        let n = if sweep.is_some() { sweep_sizes(cap, half)[j] } else { n };
         sizes.push(n);
         let entries: Vec<lu::Entry> = (0..n)
             .map(|i| {
@@ -551,14 +573,16 @@ fn gen_leaf(r: &mut Rng, next_id: &mut usize, pn: &mut u32, out: &mut Sink, dire
         out.line(format!("lleaf {} {} {} {}", id, hex(&sep), *pn, lentries_str(&entries)), "ok".into());
         leaves.push(LLeaf { id, sep, pn: *pn, entries });
     }
-    let shapes: Vec<Shape> = match directed {
-        Some(w) => directed_shapes(w, m),
-        None => (0..m).map(|_| pick_shape(r)).collect(),
+    let shapes: Vec<Shape> = match (directed, sweep) {
+        (_, Some(_)) => sweep_shapes(),
+        (Some(w), _) => directed_shapes(w, m),
+        _ => (0..m).map(|_| pick_shape(r)).collect(),
     };
+    let keep = sweep.map(|d| (cap + d).saturating_sub(sizes[2] + 6));
     let mut changes: Vec<(Key, Option<Vec<u8>>)> = Vec::new();
     for (j, lf) in leaves.iter().enumerate() {
         let n = lf.entries.len();
-        let (dels, ins, upd) = shape_plan(r, shapes[j], n, half.saturating_sub(2).max(1));
+        let (dels, ins, upd) = shape_plan(r, shapes[j], n, half.saturating_sub(2).max(1), keep);
         let mut here: BTreeMap<Key, Option<Vec<u8>>> = BTreeMap::new();
         for i in dels {
             // the first entry of the first leaf stays: `enforce_first_leaf_separator` is not part of this unit
@@ -748,7 +772,7 @@ pub fn run(seed: u64, cases: usize, out: &mut Sink) {
     let mut next_leaf = 0usize;
     let mut pn = 1000u32;
     let only: Option<usize> = std::env::var("VH_XR_ONLY").ok().and_then(|s| s.parse().ok());
-    let ndirected = 8usize;
+    let ndirected = 8usize + SWEEP;
     for case in 0..cases + ndirected {
         let mut r = rng.fork();
         if let Some(o) = only {
